@@ -184,7 +184,9 @@ func scenarioReset() int {
 			// with stamping the fallback goes to received:rport (the dead ephemeral port): nothing to see;
 			// on no-received listeners it goes to the sent-by address where the driver listens
 			if sv.NoRecv {
-				if n != 1 || after != before+1 {
+				// (a connection the proxy already holds to that address from an earlier fallback
+				// is as good as a new one: at most one new connection, exactly one delivery)
+				if n != 1 || after-before > 1 {
 					run.Violation("response for a client whose connection failed was not written exactly once on a fresh connection to its sent-by address", map[string]any{"service": svc, "seen_at": at, "new_connections": after - before})
 					continue
 				}
